@@ -11,6 +11,8 @@ import (
 	"bytes"
 	"encoding/json"
 	"fmt"
+	"os"
+	"path/filepath"
 	"sort"
 	"strings"
 	"time"
@@ -30,6 +32,23 @@ const oaiSSE = "data: {\"id\":\"x\",\"object\":\"chat.completion.chunk\",\"model
 
 func clientBody(stream bool) []byte {
 	return []byte(fmt.Sprintf(`{"model":"m1","max_tokens":64,"system":"SYS-TEXT-7","stream":%v,"messages":[{"role":"user","content":[{"type":"text","text":"hello from client"}]}]}`, stream))
+}
+
+// richBody: the same request as a client library with more features writes it - other key order, insignificant white
+// space, members inside content blocks that the proxy's own structs do not name (cache_control), metadata, a tool definition, an
+// earlier tool call whose input carries an integer above 2^53. "Byte-identical" is a statement about bytes like these.
+func richBody(stream bool) []byte {
+	return []byte(fmt.Sprintf("{\n  \"messages\": [ {\"role\":\"user\",\"content\":[{\"type\":\"text\",\"text\":\"hello from client\",\"cache_control\":{\"type\":\"ephemeral\"}}]},\n"+
+		"    {\"role\":\"assistant\",\"content\":[{\"type\":\"tool_use\",\"id\":\"call_9\",\"name\":\"lookup\",\"input\":{\"big\":9007199254740993,\"f\":1.0}}]},\n"+
+		"    {\"role\":\"user\",\"content\":[{\"type\":\"tool_result\",\"tool_use_id\":\"call_9\",\"content\":\"r\"}]} ],\n"+
+		"  \"metadata\": {\"user_id\": \"u-1\"}, \"thinking\": {\"type\":\"disabled\"},\n"+
+		"  \"tools\": [{\"name\":\"lookup\",\"description\":\"d\",\"input_schema\":{\"type\":\"object\",\"properties\":{\"big\":{\"type\":\"integer\"}},\"additionalProperties\":false}}],\n"+
+		"  \"system\":\"SYS-TEXT-7\", \"max_tokens\": 64, \"stream\":%v, \"model\":\"m1\" }", stream))
+}
+
+// inspectorDir: where the request inspector writes when it is switched on (removed at the end of the run)
+func inspectorDir() string {
+	return filepath.Join(os.TempDir(), fmt.Sprintf("verif-c14-inspector-%d", os.Getpid()))
 }
 
 func plan(q *stack.Request) stack.Behaviour {
@@ -159,18 +178,19 @@ func main() {
 					res.NotExhaustive("time budget")
 					continue
 				}
-				runConfig(engine, pt, set, isNative)
+				runConfig(engine, pt, idx%2 == 0, set, isNative)
 			}
 		}
 	}
-	res.Info["grid"] = map[string]any{"native_types": native, "non_native_types": non, "types_used": pool, "endpoint_sets": len(sets), "passthrough": []bool{true, false},
+	res.Info["grid"] = map[string]any{"native_types": native, "non_native_types": non, "types_used": pool, "endpoint_sets": len(sets), "passthrough": []bool{true, false}, "request_inspector": "off / on (alternating configurations)", "client_bodies": []string{"plain", "rich (other key order, white space, unknown members, tool definition, integer above 2^53)"},
 		"stream": []bool{false, true}, "faults": []string{"all fine", "preferred native refuses", "all natives refuse"}, "engines": []string{"sherpa", "olla"}}
 	res.Info["rule"] = "one evaluation = one request in one (engine, passthrough flag, endpoint set, fault, stream) cell; non-trivial = the endpoint set mixes native and non-native types or a native endpoint was made to fail; distinct = distinct (cell, mode header, receiving path) tuples"
 	res.Assume("native/non-native classification read from the shipped YAML via profile.Factory.GetAnthropicSupport at check time")
+	os.RemoveAll(inspectorDir())
 	res.Finish()
 }
 
-func runConfig(engine string, passthrough bool, set []string, isNative map[string]bool) {
+func runConfig(engine string, passthrough, inspector bool, set []string, isNative map[string]bool) {
 	var bes []*stack.Backend
 	var eps []stack.EP
 	for i, t := range set {
@@ -188,6 +208,10 @@ func runConfig(engine string, passthrough bool, set []string, isNative map[strin
 	}()
 	o, err := stack.Boot(stack.Opts{Engine: engine, Balancer: "priority", Endpoints: eps, ModelDiscovery: true, Mutate: func(c *config.Config) {
 		c.Translators.Anthropic.PassthroughEnabled = passthrough
+		if inspector {
+			// the request inspector (off by default) logs requests and responses of the Anthropic route to a directory
+			c.Translators.Anthropic.Inspector = config.InspectorConfig{Enabled: true, OutputDir: inspectorDir(), SessionHeader: "X-Session-ID"}
+		}
 	}})
 	if err != nil {
 		res.Break("boot %v: %v", set, err)
@@ -209,7 +233,8 @@ func runConfig(engine string, passthrough bool, set []string, isNative map[strin
 		faults = append(faults, "first-native-refuses")
 	}
 	for _, fault := range faults {
-		for _, stream := range []bool{false, true} {
+		for combo := 0; combo < 4; combo++ {
+			stream, rich := combo&1 == 1, combo&2 == 2
 			for i, b := range bes {
 				b.Reset()
 				b.Refuse(false)
@@ -226,16 +251,19 @@ func runConfig(engine string, passthrough bool, set []string, isNative map[strin
 			}
 			before, _ := readStats(o)
 			body := clientBody(stream)
+			if rich {
+				body = richBody(stream)
+			}
 			r := stack.Do(o.Addr, &stack.Req{Method: "POST", Target: "/olla/anthropic/v1/messages", Body: body, Timeout: 8 * time.Second,
 				Headers: [][2]string{{"Content-Type", "application/json"}, {"anthropic-version", "2023-06-01"}}})
 			res.Add("evaluations", 1)
 			var after transStats
 			var raw string
 			stack.Eventually(time.Second, func() bool { after, raw = readStats(o); return after.Total > before.Total })
-			cell := fmt.Sprintf("engine=%s passthrough_enabled=%v types=%v fault=%s stream=%v", engine, passthrough, set, fault, stream)
+			cell := fmt.Sprintf("engine=%s passthrough_enabled=%v inspector=%v types=%v fault=%s stream=%v body=%s", engine, passthrough, inspector, set, fault, stream, map[bool]string{false: "plain", true: "rich"}[rich])
 			rp := map[string]any{"engine": "stack", "cell": cell}
 			wit := func(extra map[string]any) map[string]any {
-				w := map[string]any{"passthrough_enabled": passthrough}
+				w := map[string]any{"passthrough_enabled": passthrough, "inspector": inspector}
 				for k, v := range extra {
 					w[k] = v
 				}
